@@ -307,8 +307,15 @@ def build_path(root, steps):
         {'item': {'one': {'lit': a}}} if op == '[' else {'seg': a} for op, a in steps]}})
 
 
+class Malformed(Exception):
+    pass
+
+
 def enc_pairs(p):
     ops = p.path_t.__ops__
+    if len(ops) % 2 != 1 or any(type(ops[i]) is not str for i in range(1, len(ops), 2)) \
+            or root_name(ops[0]) == '?':
+        raise Malformed()
     return {'root': root_name(ops[0]),
             'steps': [[ops[i], bbrepr(ops[i + 1])] for i in range(1, len(ops), 2)]}
 
@@ -336,6 +343,8 @@ def run_seq(case):
             return {'bool': p.startswith(build_path(op['startswith']['root'], op['startswith']['steps']))}
         if 'concat' in op:
             return {'path': enc_pairs(Path(p, build_path('T', op['concat'])))}
+    except Malformed:
+        return {'other': 'malformed __ops__'}
     except IndexError:
         return 'IndexError'
     except ValueError:
@@ -476,7 +485,7 @@ def gen_step(r, depth, allow_seg):
         return {'items': [gen_item(r, depth) for _ in range(n)]}
     if p < 0.94:
         na = r.choice([0, 1, 1, 2])
-        kws = r.sample(KWNAMES, r.choice([0, 0, 1, 2, 3]))
+        kws = r.sample(KWNAMES, r.choice([0, 0, 1, 2, 3, 4, 6]))
         return {'call': {'args': [gen_arg(r, depth) for _ in range(na)],
                          'kwargs': [[k, gen_arg(r, depth)] for k in kws]}}
     return r.choice(['star', 'starstar'])
